@@ -642,7 +642,8 @@ static void lp_err (
 
 	EGLPNUM_TYPENAME_ILLread_lp_state_skip_blanks (state, 0);
 	at = state->p - state->line;
-	vsprintf (error_desc, format, args);
+	/* leave room for the newline appended below; long names must not overrun */
+	vsnprintf (error_desc, sizeof (error_desc) - 2, format, args);
 	slen = strlen (error_desc);
 	if ((slen > 0) && error_desc[slen - 1] != '\n')
 	{
